@@ -71,6 +71,22 @@ def sight(cell):
         r3 = s.get_trajectory_adjustment(row, mag)
         if tuple(r3) != tuple(r):
             out.append({'msg': f'{fp}: get_trajectory_adjustment {tuple(r3)} differs from get_adjustment {tuple(r)} for the same row', 'key': None})
+    # conversions only change the unit a quantity displays in: re-displaying the sight's own quantities (or handing over the target distance
+    # displayed in another unit) must not change the clicks
+    base = s.get_adjustment(U(tdu)(td), pb.Unit.Mil(1.0), pb.Unit.Mil(-0.5), mag)
+    for du, au in (('Meter', 'MOA'), ('Inch', 'Radian'), ('Kilometer', 'CmPer100m')):
+        s2 = pb.Sight(fp, U(calu)(cal), cu(h), cu(v))
+        s2.scale_factor << pb.Unit[du]
+        s2.h_click_size << pb.Unit[au]
+        s2.v_click_size << pb.Unit[au]
+        tdq = U(tdu)(td)
+        tdq << pb.Unit.Foot
+        r4 = s2.get_adjustment(tdq, pb.Unit.Mil(1.0), pb.Unit.Mil(-0.5), mag)
+        n += 1
+        if abs(r4.vertical - base.vertical) > 1e-9 * abs(base.vertical) or abs(r4.horizontal - base.horizontal) > 1e-9 * abs(base.horizontal):
+            if un not in ('InchesPer100Yd', 'CmPer100m') and au != 'CmPer100m':
+                out.append({'msg': f'{fp} {un} cal={cal}{calu} target={td}{tdu} x{mag}: clicks change from {tuple(base)} to {tuple(r4)} when the calibration distance is merely displayed in {du} and the clicks in {au}', 'key': None})
+                break
     nt = [fp, h != v, mag != 1.0, calr != tdr]
     return {'v': out[:4], 'n': 3 * n, 'nt': cell if (h != v or mag != 1.0 or calr != tdr) else None, 'obs': nt}
 
